@@ -120,15 +120,67 @@ def int_max_str_digits(n):
         sys.set_int_max_str_digits(old)
 
 
+@contextlib.contextmanager
+def debug_logging(names=('oslo_utils',)):
+    """The service runs with debug=True: the library's loggers are enabled for DEBUG and a handler renders every record
+    (as oslo.log's handlers do), so whatever a debug statement computes for its arguments is computed."""
+    import logging
+
+    class Render(logging.Handler):
+        def emit(self, record):
+            try:
+                record.getMessage()
+            except Exception:  # noqa  (logging.Handler.handleError would only print it)
+                pass
+    saved = []
+    disabled = logging.root.manager.disable
+    logging.disable(logging.NOTSET)
+    h = Render(level=logging.DEBUG)
+    for n in names:
+        lg = logging.getLogger(n)
+        saved.append((lg, lg.level, lg.propagate))
+        lg.setLevel(logging.DEBUG)
+        lg.addHandler(h)
+        lg.propagate = False
+    try:
+        yield
+    finally:
+        logging.disable(disabled)
+        for lg, level, prop in saved:
+            lg.removeHandler(h)
+            lg.setLevel(level)
+            lg.propagate = prop
+
+
+@contextlib.contextmanager
+def pyparsing_inline_literals(cls_name='Suppress'):
+    """Another pyparsing user in the process has called ParserElement.inline_literals_using(Suppress) (documented, and
+    common in grammars that do not want punctuation in their results): bare strings inside expressions built from now
+    on become that class instead of Literal."""
+    import pyparsing
+    PE = pyparsing.ParserElement
+    old = PE._literalStringClass
+    PE.inline_literals_using(getattr(pyparsing, cls_name))
+    try:
+        yield
+    finally:
+        PE.inline_literals_using(old)
+
+
+ACTIVE = []              # names of the modes the case being evaluated runs under (recorded in a violation's replay file)
+FORCE = [None]           # set on --replay to the recorded names: exactly those modes are entered, whatever the digest says
 MODES_OFF = [False]      # set while several threads evaluate cases at once: the modes below change process-wide settings
 
 
-def with_modes(inner, lazy=None, warn=None, share_lazy=6, share_warn=5):
+def with_modes(inner, lazy=None, warn=None, share_lazy=6, share_warn=5, debug=None, share_debug=3, digits=None,
+               share_digits=5, pp=None, share_pp=5):
     """Wraps a check's evaluate(ctx, case).  lazy / warn: predicates over cases (or None) saying for which cases the mode
     is sound on the pinned tree; a fixed, replay-stable share of those cases then runs under oslo_i18n lazy translation /
     with warnings turned into errors (what `python -W error` does for the process, scoped here to the calls).  A warning
     the library issues on a path the property covers then surfaces as an exception that is neither the documented
-    result nor the documented error."""
+    result nor the documented error.  debug: the library's loggers at DEBUG with a rendering handler; digits: the
+    interpreter's int<->str digit limit switched off (sys.set_int_max_str_digits(0)); pp: pyparsing's process-wide
+    inline-literal class set to Suppress."""
     import json
     import zlib
 
@@ -141,15 +193,36 @@ def with_modes(inner, lazy=None, warn=None, share_lazy=6, share_warn=5):
     def evaluate(ctx, case):
         if not isinstance(case, dict) or MODES_OFF[0]:
             return inner(ctx, case)
-        use_lazy = lazy is not None and lazy(case) and digest(case, 'lazy') % share_lazy == 0
-        use_warn = warn is not None and warn(case) and digest(case, 'warn') % share_warn == 0
+        def want(pred, salt, share, name):
+            if FORCE[0] is not None:
+                return name in FORCE[0]
+            return pred is not None and pred(case) and digest(case, salt) % share == 0
+        if ACTIVE:               # an evaluator wrapped inside another wrapped evaluator: the outer one has decided
+            return inner(ctx, case)
         with contextlib.ExitStack() as stack:
-            if use_lazy:
+            stack.callback(ACTIVE.clear)
+            if want(lazy, 'lazy', share_lazy, 'lazy'):
                 ctx.clause('under-lazy-translation')
                 stack.enter_context(lazy_i18n())
-            if use_warn:
+                ACTIVE.append('lazy')
+            if want(warn, 'warn', share_warn, 'warn'):
                 ctx.clause('under-warnings-as-errors')
                 stack.enter_context(warnings_as_errors())
+                ACTIVE.append('warn')
+            if want(debug, 'debug', share_debug, 'debug'):
+                ctx.clause('under-debug-logging')
+                stack.enter_context(debug_logging())
+                ACTIVE.append('debug')
+            if want(digits, 'digits', share_digits, 'digits'):
+                ctx.clause('under-unlimited-int-digits')
+                stack.enter_context(int_max_str_digits(0))
+                ACTIVE.append('digits')
+            if want(pp, 'pp', share_pp, 'pp'):
+                ctx.clause('under-pyparsing-inline-literals-suppressed')
+                stack.enter_context(pyparsing_inline_literals())
+                ACTIVE.append('pp')
+            if not ACTIVE:
+                ACTIVE.append('none')
             return inner(ctx, case)
     evaluate.__wrapped__ = inner
     return evaluate
